@@ -81,3 +81,46 @@ package service
 //@   requires p.pending == 1 && size >= 0
 //@   check queued-or-settled: (p.pending == 0 && p.res == 0 && (err != nil || inserted == 0)) ||
 //@          (p.pending == 1 && err == nil && inserted != 0 && len(svc.results) >= 1 && svc.results[len(svc.results) - 1] == p)
+
+// ---------------------------------------------------------------- column adaptors (C02)
+
+// Array appends used by the trace and profile append routines: each adds
+// exactly len(arr) rows, in order, after the rows already there.
+//@ func (Int64Adaptor).AppendArr [C02]
+//@   requires u.ColInt64 != nil
+//@   modifies *u.ColInt64
+//@   ensures len(*u.ColInt64) == old(len(*u.ColInt64)) + len(arr)
+//@   ensures forall k int :: 0 <= k && k < len(arr) ==> (*u.ColInt64)[old(len(*u.ColInt64)) + k] == arr[k]
+//@   ensures forall k int :: 0 <= k && k < old(len(*u.ColInt64)) ==> (*u.ColInt64)[k] == old((*u.ColInt64)[k])
+//@ func (I8Adaptor).AppendArr [C02]
+//@   requires u.ColInt8 != nil
+//@   modifies *u.ColInt8
+//@   ensures len(*u.ColInt8) == old(len(*u.ColInt8)) + len(arr)
+//@   ensures forall k int :: 0 <= k && k < len(arr) ==> (*u.ColInt8)[old(len(*u.ColInt8)) + k] == arr[k]
+//@ func (Uint64Adaptor).AppendArr [C02]
+//@   requires u.ColUInt64 != nil
+//@   modifies *u.ColUInt64
+//@   ensures len(*u.ColUInt64) == old(len(*u.ColUInt64)) + len(arr)
+//@   ensures forall k int :: 0 <= k && k < len(arr) ==> (*u.ColUInt64)[old(len(*u.ColUInt64)) + k] == arr[k]
+
+// Fixed-width values: every value must have the column's width (ch-go panics
+// otherwise, in the unrecovered request goroutine), and the buffer grows by
+// width bytes per value, so buffer length / width counts rows.
+//@ func (*github.com/ClickHouse/ch-go/proto.ColFixedStr).Append
+//@   flag inline
+//@ func (FixedStrAdaptor).AppendArr [C02,C05]
+//@   requires u.ColFixedStr != nil && u.ColFixedStr.Size > 0
+//@   requires widths: forall k int :: 0 <= k && k < len(arr) ==> len(arr[k]) == u.ColFixedStr.Size
+//@   modifies u.ColFixedStr.Buf
+//@   ensures len(u.ColFixedStr.Buf) == old(len(u.ColFixedStr.Buf)) + u.ColFixedStr.Size * len(arr)
+//@   loop 1:
+//@     invariant len(u.ColFixedStr.Buf) == old(len(u.ColFixedStr.Buf)) + u.ColFixedStr.Size * (rangeindex + 1) && rangeindex + 1 <= len(arr)
+//@     modifies u.ColFixedStr.Buf
+
+//@ func (*DateAppender).AppendArr [C02]
+//@   requires d.D != nil
+//@   modifies *d.D
+//@   ensures len(*d.D) == old(len(*d.D)) + len(date)
+//@   loop 1:
+//@     invariant len(*d.D) == old(len(*d.D)) + rangeindex + 1 && rangeindex + 1 <= len(date)
+//@     modifies *d.D
